@@ -57,12 +57,13 @@ func NewGroupRouter(ctx context.Context, client *clientv3.Client, logger *slog.L
 		routes: make(map[string]string),
 	}
 
-	if err := r.loadAll(ctx); err != nil {
+	rev, err := r.loadAll(ctx)
+	if err != nil {
 		cancel()
 		return nil, fmt.Errorf("load initial group routes: %w", err)
 	}
 
-	go r.watch(watchCtx)
+	go r.watch(watchCtx, rev)
 	return r, nil
 }
 
@@ -102,10 +103,10 @@ func (r *GroupRouter) Stop() {
 	r.cancel()
 }
 
-func (r *GroupRouter) loadAll(ctx context.Context) error {
+func (r *GroupRouter) loadAll(ctx context.Context) (int64, error) {
 	resp, err := r.client.Get(ctx, groupLeasePrefix+"/", clientv3.WithPrefix())
 	if err != nil {
-		return err
+		return 0, err
 	}
 	fresh := make(map[string]string, len(resp.Kvs))
 	for _, kv := range resp.Kvs {
@@ -119,12 +120,23 @@ func (r *GroupRouter) loadAll(ctx context.Context) error {
 	r.routes = fresh
 	r.mu.Unlock()
 	r.logger.Info("loaded group routes from etcd", "count", len(fresh))
-	return nil
+	// Revision of this read: a watch that starts right after it misses nothing.
+	var rev int64
+	if resp.Header != nil {
+		rev = resp.Header.Revision
+	}
+	return rev, nil
 }
 
-func (r *GroupRouter) watch(ctx context.Context) {
+func (r *GroupRouter) watch(ctx context.Context, loadedRev int64) {
 	for {
-		watchChan := r.client.Watch(ctx, groupLeasePrefix+"/", clientv3.WithPrefix(), clientv3.WithPrevKV())
+		// Start the watch right after the revision of the last full read, so that a
+		// change between that read and this call is delivered instead of lost.
+		opts := []clientv3.OpOption{clientv3.WithPrefix(), clientv3.WithPrevKV()}
+		if loadedRev > 0 {
+			opts = append(opts, clientv3.WithRev(loadedRev+1))
+		}
+		watchChan := r.client.Watch(ctx, groupLeasePrefix+"/", opts...)
 		for resp := range watchChan {
 			if resp.Err() != nil {
 				r.logger.Warn("group lease watch error", "error", resp.Err())
@@ -156,9 +168,12 @@ func (r *GroupRouter) watch(ctx context.Context) {
 
 		r.logger.Warn("group lease watch stream closed, reconnecting")
 		time.Sleep(time.Second)
-		if err := r.loadAll(ctx); err != nil {
+		rev, err := r.loadAll(ctx)
+		if err != nil {
 			r.logger.Warn("group lease watch reconnect: reload failed", "error", err)
+			rev = 0
 		}
+		loadedRev = rev
 	}
 }
 
